@@ -63,13 +63,18 @@ def _uses(b):
         elif k == "agg":
             ops = rv["ops"]
         elif k == "discr":
-            uses[rv["place"]["l"]].append(("discr", st["place"]["l"], bi, st))
+            fl = [p for p in rv["place"]["p"] if isinstance(p, dict) and "f" in p]
+            if fl and len([p for p in rv["place"]["p"] if p != "*"]) == 1:
+                # discriminant of a tuple component: `match (result, other) { (Err(_), Some(x)) => .. }`
+                uses[(rv["place"]["l"], fl[0]["f"])].append(("discr", st["place"]["l"], bi, st))
+            else:
+                uses[rv["place"]["l"]].append(("discr", st["place"]["l"], bi, st))
         elif k == "ref":
             if not [p for p in rv["place"]["p"] if p != "*"]:
                 uses[rv["place"]["l"]].append(("ref", st["place"]["l"], bi, st))
-        for o in ops:
+        for oi, o in enumerate(ops):
             if o.get("k") in ("copy", "move") and not [p for p in o["place"]["p"] if p != "*"]:
-                uses[o["place"]["l"]].append((k, st["place"]["l"], bi, st))
+                uses[o["place"]["l"]].append((k, st["place"]["l"], bi, st, oi))
     return uses
 
 
@@ -240,7 +245,9 @@ def census(F):
                         if u[1] != 0:
                             work.append(u[1])
                     elif u[0] == "agg":
-                        pass        # stored in a tuple / struct / Some(..): still carries the error
+                        # stored in a tuple / struct / Some(..): still carries the error — unless the tuple is matched on the spot
+                        if len(u) > 4 and u[3]["rv"]["kind"].get("t") == "tuple" and not u[3]["place"]["p"]:
+                            discr_uses.extend(uses.get((u[1], u[4]), []))
             if discr_uses:
                 # (discriminant read, switch on it); re-inspections dominated by an earlier switch on the same Result
                 # (drop elaboration, nested patterns) already know the variant and are not decisions
